@@ -138,6 +138,7 @@ func (r serveRule) edge(tc *traceClient, x *core.TSCtx, from, to *ssa.BasicBlock
 
 func runC12(c *Ctx) {
 	R := c.R
+	defer c.include("C12.S1", "C18", []string{"C18.R1", "C18.R2"}, "the client parameters handlers see later are the strings decoded at start-up: the message window discipline", 6)
 	R.Technique = "trace automaton over serve (start-up order, cancel paths marked by the version == CancelRequest edge); provenance rules for the parameter maps (who-may-update, origin = make / maps.Clone)"
 	R.Explanation = "Decides: (R1) on every path of serve the order is optional SSL byte, the authentication step (AuthenticationOk or the configured strategy), ParameterStatus messages only after it, the session middleware once, exactly one ReadyForQuery after all of these, then the command loop; a failed step ends the connection. " +
 		"(R2) writeParameters sets exactly server_encoding and client_encoding (UTF8), is_superuser, session_authorization (the connecting user) and server_version under Version != \"\", on a map that is make() or maps.Clone of the configured map, emits one ParameterStatus per entry by ranging over that same map, and stores that map in the connection context. " +
